@@ -1095,6 +1095,40 @@ fn float_sweep(cx: &mut Ctx, rng: &mut Rng, n: u64) {
     }
 }
 
+/// integer literals: `str::parse::<i64 / u64 / u32>` against `parseI64` / `parseUnsigned` (accepted language,
+/// value and — unsigned — the error kind), on the boundary numerals and on random strings over the alphabet
+/// that matters (digits, signs, the characters other number syntaxes use)
+fn int_sweep(cx: &mut Ctx, rng: &mut Rng, n: u64) {
+    use std::num::IntErrorKind;
+    let emit = |cx: &mut Ctx, raw: &[u8]| {
+        let s = String::from_utf8_lossy(raw).to_string();
+        let i = match s.parse::<i64>() { Ok(v) => format!("i{}", v), Err(_) => "none".to_string() };
+        cx.out.op(format!("I {}", hex(s.as_bytes())), i);
+        let kind = |k: &IntErrorKind| match k { IntErrorKind::Empty => "empty", IntErrorKind::InvalidDigit => "invalid", IntErrorKind::PosOverflow => "overflow", _ => "other" }.to_string();
+        let u = match s.parse::<u64>() { Ok(v) => format!("n{}", v), Err(e) => kind(e.kind()) };
+        cx.out.op(format!("U64 {}", hex(s.as_bytes())), u);
+        let w = match s.parse::<u32>() { Ok(v) => format!("n{}", v), Err(e) => kind(e.kind()) };
+        cx.out.op(format!("U32 {}", hex(s.as_bytes())), w);
+        cx.out.count(if s.parse::<i64>().is_ok() { "int:accepted" } else { "int:rejected" });
+    };
+    for s in NUMS { emit(cx, s.as_bytes()); }
+    for base in ["9223372036854775807", "9223372036854775808", "18446744073709551615", "18446744073709551616", "4294967295", "4294967296"] {
+        for pre in ["", "+", "-", "0", "00", "+0", "-0", "++", "+-", " "] {
+            for suf in ["", "0", "x", " ", "_", "."] { emit(cx, format!("{}{}{}", pre, base, suf).as_bytes()); }
+        }
+    }
+    const ALPHA: &[u8] = b"00112233445566778899+-_ .exXa\xff";
+    for _ in 0..n {
+        let len = if rng.chance(1, 3) { rng.below(4) } else { rng.below(23) };
+        let mut v: Vec<u8> = Vec::new();
+        if rng.chance(1, 3) { v.push(*rng.pick(&[b'+', b'-'])); }
+        for _ in 0..len {
+            v.push(if rng.chance(9, 10) { b'0' + rng.below(10) as u8 } else { *rng.pick(ALPHA) });
+        }
+        emit(cx, &v);
+    }
+}
+
 // ---------------------------------------------------------------------------------------------
 // RESP <-> Lua conversion through scripts
 // ---------------------------------------------------------------------------------------------
@@ -2140,6 +2174,7 @@ pub fn run(a: &Args) {
     corpus(&mut cx);
     unicode_sweep(&mut cx);
     float_sweep(&mut cx, &mut rng, (a.n / 4).max(200));
+    int_sweep(&mut cx, &mut rng, (a.n / 8).max(200));
     luaconv(&mut cx, &mut rng, (a.n / 10).max(100));
     lua_args(&mut cx);
     eval_plumbing(&mut cx);
